@@ -386,6 +386,11 @@ Definition param_table (ps : list param) (i : nat) : table :=
   map (fun p => (tok (p_key p), row_value p i)) ps ++
   map (fun p => (tok (p_key p ++ s ".name"), param_name p)) ps.
 
+(** parameter keys are pairwise distinct words ([\w+]: they are dict keys of the
+    specification and are spliced into a regex) *)
+Definition keys_okb (ps : list param) : bool :=
+  str_nodupb (map p_key ps) && forallb (fun p => forallb isword (p_key p)) ps.
+
 Definition param_pass (m : mode) (ps : list param) (i : nat) (x : str) : str :=
   pass m (param_table ps i) (param_table ps i) x.
 
